@@ -1845,3 +1845,341 @@ Example ex_pool_drain :
   let p1 := run_workers (pool_stop (mkPool [Some 1; Some 2; Some 3] [WBusy 0; WIdle] [])) [1; 0; 1; 0; 0; 1; 1; 0; 1]%nat in
   pw p1 = [WExited; WExited] /\ pdone p1 = [0; 1; 2; 3].
 Proof. vm_compute. split; reflexivity. Qed.
+
+(* ------------------------------------------------------------------ everything selected: nested pyramids *)
+
+(* ---------------- one axis *)
+Definition ax := (Z * Z * Z)%type.   (* u = coordinate of the point, a / b = lower / upper side of the rectangle, all
+                                        measured from the origin of the tile numbering along the axis *)
+Definition side_ok (s d : Z) (x : ax) : Prop :=
+  let '(u, a, b) := x in
+  (a + d <= u \/ (exists m, a = m * s /\ a <= u)) /\ (u <= b - d \/ (exists m, b = m * s /\ u < b)).
+Definition sel2 (d : Z) (x : ax) : Z * Z :=
+  let '(u, a, b) := x in if b - d <? a + d then (a + b, a + b) else (2 * (a + d), 2 * (b - d)).
+
+Lemma div_lower q v s : 0 < s -> q * s <= v -> q <= v / s.
+Proof. intros Hs H. apply Z.div_le_lower_bound; lia. Qed.
+Lemma div_upper q v s : 0 < s -> v < (q + 1) * s -> v / s <= q.
+Proof. intros Hs H. assert (v / s < q + 1); [|lia]. apply Z.div_lt_upper_bound; lia. Qed.
+
+Lemma div_eq v s q : 0 < s -> q * s <= v < (q + 1) * s -> v / s = q.
+Proof. intros Hs H. symmetry. apply (Z.div_unique v s q (v - q * s)); lia. Qed.
+
+Lemma axis_sel s d u a b :
+  0 < s -> 0 <= d -> 2 * d <= s -> side_ok s d (u, a, b) ->
+  fst (sel2 d (u, a, b)) / (2 * s) <= u / s <= snd (sel2 d (u, a, b)) / (2 * s).
+Proof.
+  intros Hs Hd Hds [Hlo Hhi]. cbn [sel2].
+  assert (Hu : (2 * u) / (2 * s) = u / s) by (apply Z.div_mul_cancel_l; lia).
+  destruct (b - d <? a + d) eqn:E; cbn [fst snd].
+  - apply Z.ltb_lt in E.
+    destruct Hlo as [Hlo|(m & -> & Hlo)]; destruct Hhi as [Hhi|(m' & -> & Hhi)]; try lia.
+    + (* point right of a + d, b aligned: everything in the last tile before b *)
+      assert (u / s = m' - 1) by (apply div_eq; lia).
+      assert ((a + m' * s) / (2 * s) = m' - 1) by (apply div_eq; lia).
+      lia.
+    + assert (u / s = m) by (apply div_eq; lia).
+      assert ((m * s + b) / (2 * s) = m) by (apply div_eq; lia).
+      lia.
+    + exfalso. assert (m < m') by nia. nia.
+  - apply Z.ltb_ge in E. rewrite <- Hu. split.
+    + destruct Hlo as [Hlo|(m & -> & Hlo)]; [apply Z.div_le_mono; lia|].
+      assert ((2 * (m * s + d)) / (2 * s) = m) by (apply div_eq; lia).
+      assert (m <= (2 * u) / (2 * s)) by (apply div_lower; lia). lia.
+    + destruct Hhi as [Hhi|(m' & -> & Hhi)]; [apply Z.div_le_mono; lia|].
+      assert ((2 * u) / (2 * s) <= m' - 1) by (apply div_upper; lia).
+      assert (m' - 1 <= (2 * (m' * s - d)) / (2 * s)) by (apply div_lower; lia). lia.
+Qed.
+
+(* ---------------- the tile range of get_affected_level_tiles in terms of one-axis data *)
+Definition ax_x (g : grid) (cur : bbox) (px : Z) : ax :=
+  let '(b0, _, b2, _) := cur in (px - gx0 g, b0 - gx0 g, b2 - gx0 g).
+Definition ax_y (g : grid) (cur : bbox) (py : Z) : ax :=
+  let '(_, b1, _, b3) := cur in
+  if ul g then (gy1 g - py, gy1 g - b3, gy1 g - b1) else (py - gy0 g, b1 - gy0 g, b3 - gy0 g).
+
+Lemma ltb_shift x y c : (x - c <? y - c) = (x <? y).
+Proof. destruct (x <? y) eqn:E; [apply Z.ltb_lt in E; apply Z.ltb_lt; lia|apply Z.ltb_ge in E; apply Z.ltb_ge; lia]. Qed.
+
+Lemma point_selected_gen g msx msy cur px py l :
+  geo_wf g msx msy -> valid_level g l = true -> point_in_grid g px py l ->
+  (let x := ax_x g cur px in let d := res_at g l / 10 in let s := res_at g l * tw g in
+   fst (sel2 d x) / (2 * s) <= fst (fst x) / s <= snd (sel2 d x) / (2 * s)) ->
+  (let y := ax_y g cur py in let d := res_at g l / 10 in let s := res_at g l * th g in
+   fst (sel2 d y) / (2 * s) <= fst (fst y) / s <= snd (sel2 d y) / (2 * s)) ->
+  In (Some (point_meta g msx msy px py l)) (affected_tiles g msx msy cur l).
+Proof.
+  intros Hwf Hv Hgrid HX HY. pose proof (geo_res_pos g msx msy l Hwf Hv) as Hr.
+  destruct Hwf as (Htw & Hth & _ & Hmx & Hmy).
+  destruct cur as [[[bx0 by0] bx1] by1].
+  unfold affected_tiles, meta_affected, point_meta, point_in_grid, tile2, tile, meta_size, grid_size in *.
+  cbn [ax_x ax_y sel2 fst snd] in HX, HY. cbv zeta in HX, HY.
+  set (r := res_at g l) in *. set (delta := r / 10) in *.
+  set (nx := axis_tiles (gx1 g - gx0 g) r (tw g)) in *. set (ny := axis_tiles (gy1 g - gy0 g) r (th g)) in *.
+  set (sx := Z.min msx nx). set (sy := Z.min msy ny).
+  assert (Hsx : 0 < sx) by (subst sx nx; unfold axis_tiles; lia).
+  assert (Hsy : 0 < sy) by (subst sy ny; unfold axis_tiles; lia).
+  assert (Dx : 0 < r * tw g) by nia. assert (Dy : 0 < r * th g) by nia.
+  set (tx := (px - gx0 g) / (r * tw g)) in *.
+  (* x axis *)
+  assert (HX' : ((if bx1 - delta <? bx0 + delta then bx0 + bx1 else 2 * (bx0 + delta)) - 2 * gx0 g) / (2 * (r * tw g)) <= tx <=
+                ((if bx1 - delta <? bx0 + delta then bx0 + bx1 else 2 * (bx1 - delta)) - 2 * gx0 g) / (2 * (r * tw g))).
+  { replace (bx1 - gx0 g - delta <? bx0 - gx0 g + delta) with (bx1 - delta <? bx0 + delta) in HX
+      by (rewrite <- (ltb_shift (bx1 - delta) (bx0 + delta) (gx0 g)); f_equal; lia).
+    destruct (bx1 - delta <? bx0 + delta); cbn [fst snd] in HX.
+    - replace (bx0 + bx1 - 2 * gx0 g) with (bx0 - gx0 g + (bx1 - gx0 g)) by lia. exact HX.
+    - replace (2 * (bx0 + delta) - 2 * gx0 g) with (2 * (bx0 - gx0 g + delta)) by lia.
+      replace (2 * (bx1 - delta) - 2 * gx0 g) with (2 * (bx1 - gx0 g - delta)) by lia. exact HX. }
+  clear HX.
+  set (lox := ((if bx1 - delta <? bx0 + delta then bx0 + bx1 else 2 * (bx0 + delta)) - 2 * gx0 g) / (2 * (r * tw g))) in *.
+  set (hix := ((if bx1 - delta <? bx0 + delta then bx0 + bx1 else 2 * (bx1 - delta)) - 2 * gx0 g) / (2 * (r * tw g))) in *.
+  assert (Hqx : lox / sx <= tx / sx <= hix / sx) by (split; apply Z.div_le_mono; lia).
+  pose proof (in_up_range (lox / sx) (tx / sx) (hix / sx) sx Hsx Hqx) as Hxs.
+  assert (Hvx : 0 <= tx / sx * sx <= tx).
+  { pose proof (Z.mul_div_le tx sx Hsx). assert (0 <= tx / sx) by (apply Z.div_pos; lia). nia. }
+  destruct (ul g).
+  - cbn [sel2 fst snd] in HY. set (ty := (gy1 g - py) / (r * th g)) in *.
+    assert (HY' : (2 * gy1 g - (if by1 - delta <? by0 + delta then by0 + by1 else 2 * (by1 - delta))) / (2 * (r * th g)) <= ty <=
+                  (2 * gy1 g - (if by1 - delta <? by0 + delta then by0 + by1 else 2 * (by0 + delta))) / (2 * (r * th g))).
+    { replace (gy1 g - by0 - delta <? gy1 g - by1 + delta) with (by1 - delta <? by0 + delta) in HY
+        by (destruct (by1 - delta <? by0 + delta) eqn:E; symmetry; [apply Z.ltb_lt in E; apply Z.ltb_lt; lia|apply Z.ltb_ge in E; apply Z.ltb_ge; lia]).
+      destruct (by1 - delta <? by0 + delta); cbn [fst snd] in HY.
+      - replace (2 * gy1 g - (by0 + by1)) with (gy1 g - by1 + (gy1 g - by0)) by lia. exact HY.
+      - replace (2 * gy1 g - 2 * (by1 - delta)) with (2 * (gy1 g - by1 + delta)) by lia.
+        replace (2 * gy1 g - 2 * (by0 + delta)) with (2 * (gy1 g - by0 - delta)) by lia. exact HY. }
+    clear HY.
+    set (loy := (2 * gy1 g - (if by1 - delta <? by0 + delta then by0 + by1 else 2 * (by1 - delta))) / (2 * (r * th g))) in *.
+    set (hiy := (2 * gy1 g - (if by1 - delta <? by0 + delta then by0 + by1 else 2 * (by0 + delta))) / (2 * (r * th g))) in *.
+    assert (Hqy : loy / sy <= ty / sy <= hiy / sy) by (split; apply Z.div_le_mono; lia).
+    pose proof (in_up_range (loy / sy) (ty / sy) (hiy / sy) sy Hsy Hqy) as Hys.
+    assert (Hvy : 0 <= ty / sy * sy <= ty).
+    { pose proof (Z.mul_div_le ty sy Hsy). assert (0 <= ty / sy) by (apply Z.div_pos; lia). nia. }
+    destruct (up_range (lox / sx * sx) (hix / sx * sx) sx) as [|hx rx] eqn:Ex; [destruct Hxs|].
+    destruct (up_range (loy / sy * sy) (hiy / sy * sy) sy) as [|hy ry] eqn:Ey; [destruct Hys|].
+    unfold create_tile_list. apply in_flat_map. exists (ty / sy * sy). split; [exact Hys|].
+    apply in_map_iff. exists (tx / sx * sx). split; [|exact Hxs].
+    unfold tile_or_none. cbn [fst snd].
+    replace ((tx / sx * sx <? 0) || (ty / sy * sy <? 0) || (nx <=? tx / sx * sx) || (ny <=? ty / sy * sy)) with false; [reflexivity|].
+    symmetry. rewrite !orb_false_iff, !Z.ltb_ge, !Z.leb_gt. lia.
+  - cbn [sel2 fst snd] in HY. set (ty := (py - gy0 g) / (r * th g)) in *.
+    assert (HY' : ((if by1 - delta <? by0 + delta then by0 + by1 else 2 * (by0 + delta)) - 2 * gy0 g) / (2 * (r * th g)) <= ty <=
+                  ((if by1 - delta <? by0 + delta then by0 + by1 else 2 * (by1 - delta)) - 2 * gy0 g) / (2 * (r * th g))).
+    { replace (by1 - gy0 g - delta <? by0 - gy0 g + delta) with (by1 - delta <? by0 + delta) in HY
+        by (rewrite <- (ltb_shift (by1 - delta) (by0 + delta) (gy0 g)); f_equal; lia).
+      destruct (by1 - delta <? by0 + delta); cbn [fst snd] in HY.
+      - replace (by0 + by1 - 2 * gy0 g) with (by0 - gy0 g + (by1 - gy0 g)) by lia. exact HY.
+      - replace (2 * (by0 + delta) - 2 * gy0 g) with (2 * (by0 - gy0 g + delta)) by lia.
+        replace (2 * (by1 - delta) - 2 * gy0 g) with (2 * (by1 - gy0 g - delta)) by lia. exact HY. }
+    clear HY.
+    set (loy := ((if by1 - delta <? by0 + delta then by0 + by1 else 2 * (by0 + delta)) - 2 * gy0 g) / (2 * (r * th g))) in *.
+    set (hiy := ((if by1 - delta <? by0 + delta then by0 + by1 else 2 * (by1 - delta)) - 2 * gy0 g) / (2 * (r * th g))) in *.
+    assert (Hqy : loy / sy <= ty / sy <= hiy / sy) by (split; apply Z.div_le_mono; lia).
+    pose proof (in_down_range (loy / sy) (ty / sy) (hiy / sy) sy Hsy Hqy) as Hys.
+    assert (Hvy : 0 <= ty / sy * sy <= ty).
+    { pose proof (Z.mul_div_le ty sy Hsy). assert (0 <= ty / sy) by (apply Z.div_pos; lia). nia. }
+    destruct (up_range (lox / sx * sx) (hix / sx * sx) sx) as [|hx rx] eqn:Ex; [destruct Hxs|].
+    destruct (down_range (hiy / sy * sy) (loy / sy * sy) sy) as [|hy ry] eqn:Ey; [destruct Hys|].
+    unfold create_tile_list. apply in_flat_map. exists (ty / sy * sy). split; [exact Hys|].
+    apply in_map_iff. exists (tx / sx * sx). split; [|exact Hxs].
+    unfold tile_or_none. cbn [fst snd].
+    replace ((tx / sx * sx <? 0) || (ty / sy * sy <? 0) || (nx <=? tx / sx * sx) || (ny <=? ty / sy * sy)) with false; [reflexivity|].
+    symmetry. rewrite !orb_false_iff, !Z.ltb_ge, !Z.leb_gt. lia.
+Qed.
+
+(* ---------------- the meta tile of the point: aligned sides that own the point *)
+Lemma meta_axes g msx msy px py l :
+  geo_wf g msx msy -> valid_level g l = true ->
+  let M := meta_bbox g msx msy (point_meta g msx msy px py l) in
+  (let '(u, a, b) := ax_x g M px in exists m m', a = m * (res_at g l * tw g) /\ b = m' * (res_at g l * tw g) /\ a <= u < b) /\
+  (let '(u, a, b) := ax_y g M py in exists m m', a = m * (res_at g l * th g) /\ b = m' * (res_at g l * th g) /\ a <= u < b).
+Proof.
+  intros Hwf Hv. pose proof (geo_res_pos g msx msy l Hwf Hv) as Hr. destruct Hwf as (Htw & Hth & _ & Hmx & Hmy).
+  unfold point_meta, meta_bbox, tile, meta_size, grid_size.
+  set (r := res_at g l) in *.
+  set (sx := Z.min msx (axis_tiles (gx1 g - gx0 g) r (tw g))). set (sy := Z.min msy (axis_tiles (gy1 g - gy0 g) r (th g))).
+  assert (Hsx : 0 < sx) by (subst sx; unfold axis_tiles; lia).
+  assert (Hsy : 0 < sy) by (subst sy; unfold axis_tiles; lia).
+  assert (Dx : 0 < r * tw g) by nia. assert (Dy : 0 < r * th g) by nia.
+  set (tx := (px - gx0 g) / (r * tw g)).
+  set (ty := (if ul g then gy1 g - py else py - gy0 g) / (r * th g)).
+  rewrite !Z.div_mul by lia.
+  set (mx := tx / sx * sx). set (my := ty / sy * sy).
+  assert (Hmx' : mx <= tx < mx + sx) by (subst mx; pose proof (Z.mul_div_le tx sx Hsx); pose proof (Z.mod_pos_bound tx sx Hsx); pose proof (Z.div_mod tx sx); lia).
+  assert (Hmy' : my <= ty < my + sy) by (subst my; pose proof (Z.mul_div_le ty sy Hsy); pose proof (Z.mod_pos_bound ty sy Hsy); pose proof (Z.div_mod ty sy); lia).
+  assert (Hux : tx * (r * tw g) <= px - gx0 g < (tx + 1) * (r * tw g)).
+  { subst tx. pose proof (Z.mul_div_le (px - gx0 g) (r * tw g) Dx). pose proof (Z.mod_pos_bound (px - gx0 g) (r * tw g) Dx).
+    pose proof (Z.div_mod (px - gx0 g) (r * tw g)). lia. }
+  unfold tile_bbox, merge_bbox, ax_x, ax_y. fold r. subst ty.
+  destruct (ul g).
+  - set (ty := (gy1 g - py) / (r * th g)) in *.
+    assert (Huy : ty * (r * th g) <= gy1 g - py < (ty + 1) * (r * th g)).
+    { subst ty. pose proof (Z.mul_div_le (gy1 g - py) (r * th g) Dy). pose proof (Z.mod_pos_bound (gy1 g - py) (r * th g) Dy).
+      pose proof (Z.div_mod (gy1 g - py) (r * th g)). lia. }
+    split.
+    + exists mx, (mx + sx). nia.
+    + exists my, (my + sy). nia.
+  - set (ty := (py - gy0 g) / (r * th g)) in *.
+    assert (Huy : ty * (r * th g) <= py - gy0 g < (ty + 1) * (r * th g)).
+    { subst ty. pose proof (Z.mul_div_le (py - gy0 g) (r * th g) Dy). pose proof (Z.mod_pos_bound (py - gy0 g) (r * th g) Dy).
+      pose proof (Z.div_mod (py - gy0 g) (r * th g)). lia. }
+    split.
+    + exists mx, (mx + sx). nia.
+    + exists my, (my + sy). nia.
+Qed.
+
+(* ---------------- the invariant of the rectangle along the chain *)
+Lemma side_step s d s' d' c u a b aM bM :
+  0 < c -> s = c * s' -> d' <= d ->
+  side_ok s d (u, a, b) ->
+  (exists m m', aM = m * s /\ bM = m' * s /\ aM <= u < bM) ->
+  side_ok s' d' (u, Z.max a aM, Z.min b bM).
+Proof.
+  intros Hc -> Hd [Hlo Hhi] (m & m' & -> & -> & Hu). split.
+  - destruct (Z.max_spec a (m * (c * s'))) as [[_ ->]|[_ ->]].
+    + right. exists (m * c). split; lia.
+    + destruct Hlo as [Hlo|(k & -> & Hlo)]; [left; lia|right; exists (k * c); split; lia].
+  - destruct (Z.min_spec b (m' * (c * s'))) as [[_ ->]|[_ ->]].
+    + destruct Hhi as [Hhi|(k & -> & Hhi)]; [left; lia|right; exists (k * c); split; lia].
+    + right. exists (m' * c). split; lia.
+Qed.
+
+Definition sides_ok (g : grid) (l : Z) (cur : bbox) (px py : Z) : Prop :=
+  side_ok (res_at g l * tw g) (res_at g l / 10) (ax_x g cur px) /\
+  side_ok (res_at g l * th g) (res_at g l / 10) (ax_y g cur py).
+
+Lemma inset_sides_ok g l cur px py : inset cur (res_at g l / 10) px py -> sides_ok g l cur px py.
+Proof.
+  destruct cur as [[[b0 b1] b2] b3]. cbn [inset]. intros [Hx Hy]. unfold sides_ok, ax_x, ax_y.
+  destruct (ul g); cbn [side_ok]; repeat split; left; lia.
+Qed.
+
+Lemma ax_x_limit g cur M px :
+  ax_x g (limit_sub_bbox cur M) px =
+  (fst (fst (ax_x g cur px)), Z.max (snd (fst (ax_x g cur px))) (snd (fst (ax_x g M px))),
+   Z.min (snd (ax_x g cur px)) (snd (ax_x g M px))).
+Proof.
+  destruct cur as [[[c0 c1] c2] c3], M as [[[m0 m1] m2] m3]. cbn [limit_sub_bbox ax_x fst snd]. f_equal; [f_equal|]; lia.
+Qed.
+
+Lemma ax_y_limit g cur M py :
+  ax_y g (limit_sub_bbox cur M) py =
+  (fst (fst (ax_y g cur py)), Z.max (snd (fst (ax_y g cur py))) (snd (fst (ax_y g M py))),
+   Z.min (snd (ax_y g cur py)) (snd (ax_y g M py))).
+Proof.
+  destruct cur as [[[c0 c1] c2] c3], M as [[[m0 m1] m2] m3]. cbn [limit_sub_bbox ax_y]. destruct (ul g); cbn [fst snd].
+  - replace (gy1 g - Z.min c3 m3) with (Z.max (gy1 g - c3) (gy1 g - m3)) by lia.
+    replace (gy1 g - Z.max c1 m1) with (Z.min (gy1 g - c1) (gy1 g - m1)) by lia. reflexivity.
+  - replace (Z.max c1 m1 - gy0 g) with (Z.max (c1 - gy0 g) (m1 - gy0 g)) by lia.
+    replace (Z.min c3 m3 - gy0 g) with (Z.min (c3 - gy0 g) (m3 - gy0 g)) by lia. reflexivity.
+Qed.
+
+Lemma ax_x_u g cur M px : fst (fst (ax_x g M px)) = fst (fst (ax_x g cur px)).
+Proof. destruct cur as [[[c0 c1] c2] c3], M as [[[m0 m1] m2] m3]. reflexivity. Qed.
+Lemma ax_y_u g cur M py : fst (fst (ax_y g M py)) = fst (fst (ax_y g cur py)).
+Proof. destruct cur as [[[c0 c1] c2] c3], M as [[[m0 m1] m2] m3]. cbn [ax_y]. destruct (ul g); reflexivity. Qed.
+
+Lemma sides_step g msx msy l cur px py c :
+  geo_wf g msx msy -> valid_level g l = true ->
+  0 < c -> res_at g l = c * res_at g (l + 1) ->
+  sides_ok g l cur px py ->
+  sides_ok g (l + 1) (limit_sub_bbox cur (meta_bbox g msx msy (point_meta g msx msy px py l))) px py.
+Proof.
+  intros Hwf Hv Hc Hres [Hx Hy]. pose proof (geo_res_pos g msx msy l Hwf Hv) as Hr.
+  destruct (meta_axes g msx msy px py l Hwf Hv) as [Mx My].
+  set (M := meta_bbox g msx msy (point_meta g msx msy px py l)) in *.
+  assert (Hr1 : 0 < res_at g (l + 1)) by nia.
+  assert (Hd : res_at g (l + 1) / 10 <= res_at g l / 10) by (apply Z.div_le_mono; nia).
+  split.
+  - rewrite ax_x_limit. pose proof (ax_x_u g cur M px) as Hu.
+    destruct (ax_x g cur px) as [[u a] b]. destruct (ax_x g M px) as [[u' aM] bM]. cbn [fst snd] in *. subst u'.
+    eapply (side_step (res_at g l * tw g) (res_at g l / 10) _ _ c); eauto. rewrite Hres. ring.
+  - rewrite ax_y_limit. pose proof (ax_y_u g cur M py) as Hu.
+    destruct (ax_y g cur py) as [[u a] b]. destruct (ax_y g M py) as [[u' aM] bM]. cbn [fst snd] in *. subst u'.
+    eapply (side_step (res_at g l * th g) (res_at g l / 10) _ _ c); eauto. rewrite Hres. ring.
+Qed.
+
+Lemma sides_selected g msx msy cur px py l :
+  geo_wf g msx msy -> valid_level g l = true -> point_in_grid g px py l ->
+  sides_ok g l cur px py ->
+  In (Some (point_meta g msx msy px py l)) (affected_tiles g msx msy cur l).
+Proof.
+  intros Hwf Hv Hg [Hx Hy]. pose proof (geo_res_pos g msx msy l Hwf Hv) as Hr.
+  pose proof Hwf as (Htw & Hth & _).
+  assert (Hd0 : 0 <= res_at g l / 10) by (apply Z.div_pos; lia).
+  assert (Hd1 : 2 * (res_at g l / 10) <= res_at g l) by (pose proof (Z.mul_div_le (res_at g l) 10 ltac:(lia)); lia).
+  apply point_selected_gen; try assumption; cbv zeta.
+  - destruct (ax_x g cur px) as [[u a] b]. cbn [fst]. apply axis_sel; try assumption; nia.
+  - destruct (ax_y g cur py) as [[u a] b]. cbn [fst]. apply axis_sel; try assumption; nia.
+Qed.
+
+Lemma point_chain_nested g msx msy cov px py :
+  geo_wf g msx msy ->
+  forall n cur l,
+    (forall k, l <= k < l + Z.of_nat n ->
+               valid_level g k = true /\ point_in_grid g px py k /\
+               cov (meta_bbox g msx msy (point_meta g msx msy px py k)) <> 0) ->
+    sides_ok g l cur px py ->
+    (forall k, l <= k < l + Z.of_nat n - 1 -> exists c, 0 < c /\ res_at g k = c * res_at g (k + 1)) ->
+    chain_ok g msx msy cov cur l (point_chain g msx msy px py l n).
+Proof.
+  intros Hwf. induction n as [|n IH]; intros cur l Hk Hs Hnest; cbn [point_chain chain_ok]; [exact I|].
+  destruct (Hk l ltac:(lia)) as (Hv & Hg & Hc).
+  split; [apply sides_selected; assumption|]. split; [exact Hc|].
+  destruct n as [|n]; [exact I|].
+  destruct (Hnest l ltac:(lia)) as (c & Hc0 & Hres).
+  apply IH.
+  - intros k Hk'. apply Hk. lia.
+  - eapply sides_step; eauto.
+  - intros k Hk'. apply Hnest. lia.
+Qed.
+
+(* walk_complete_nested: on a pyramid whose resolutions are integer multiples of the next level's (factor 2 grids) a point
+   that lies at least 1/10 pixel of level 0 inside the start rectangle needs no further interiority: if at every level
+   k <= L its tile is a tile of the grid and the meta tile owning it is not NONE for the coverage, the meta tile owning
+   it at the seeded level L is handed to the workers *)
+Lemma walk_complete_nested_lemma g msx msy cov skipk levels root px py L :
+  geo_wf g msx msy -> levels_wf g levels -> In L levels ->
+  (forall k, 0 <= k <= L ->
+             valid_level g k = true /\ point_in_grid g px py k /\
+             cov (meta_bbox g msx msy (point_meta g msx msy px py k)) <> 0) ->
+  inset root (res_at g 0 / 10) px py ->
+  (forall k, 0 <= k < L -> exists c, 0 < c /\ res_at g k = c * res_at g (k + 1)) ->
+  In (point_meta g msx msy px py L) (procs (geo_walk g msx msy cov skipk levels root None)).
+Proof.
+  intros Hwf Hl HL Hk Hroot Hnest.
+  assert (HL0 : 0 <= L).
+  { destruct Hl as [_ Hval]. pose proof (Hval L HL) as Hv. unfold valid_level in Hv. apply andb_true_iff in Hv.
+    rewrite Z.leb_le in Hv. lia. }
+  pose proof (walk_complete_chain_lemma g msx msy cov skipk levels root
+                (point_chain g msx msy px py 0 (S (Z.to_nat L))) Hwf Hl ltac:(discriminate)) as H.
+  rewrite point_chain_last, point_chain_length in H. rewrite Z2Nat.id in H by lia. cbn [Z.add] in H.
+  apply H.
+  - apply point_chain_nested; [assumption| | |].
+    + intros k Hk'. apply Hk. lia.
+    + apply inset_sides_ok. exact Hroot.
+    + intros k Hk'. apply Hnest. lia.
+  - replace (Z.of_nat (S (Z.to_nat L)) - 1) with L by lia. exact HL.
+Qed.
+
+(* non-vacuity of walk_complete_nested: the point (5120, 3000) lies ON a tile edge of levels 1 and 2 of ex_grid *)
+Example ex_nested_premises :
+  (forall k, 0 <= k <= 2 ->
+             valid_level ex_grid k = true /\ point_in_grid ex_grid 5120 3000 k /\
+             cov_bboxes [ex_cov] (meta_bbox ex_grid 1 1 (point_meta ex_grid 1 1 5120 3000 k)) <> 0) /\
+  inset ex_cov (res_at ex_grid 0 / 10) 5120 3000 /\
+  (forall k, 0 <= k < 2 -> exists c, 0 < c /\ res_at ex_grid k = c * res_at ex_grid (k + 1)) /\
+  ~ inset (meta_bbox ex_grid 1 1 (point_meta ex_grid 1 1 5120 3000 1)) (res_at ex_grid 2 / 10) 5120 3000.
+Proof.
+  split; [|split; [|split]].
+  - intros k Hk. assert (H : k = 0 \/ k = 1 \/ k = 2) by lia.
+    destruct H as [H|[H|H]]; subst k; vm_compute; repeat split; congruence.
+  - vm_compute. repeat split; congruence.
+  - intros k Hk. assert (H : k = 0 \/ k = 1) by lia.
+    destruct H as [H|H]; subst k; exists 2; vm_compute; split; reflexivity.
+  - vm_compute. intros [[H _] _]. apply H. reflexivity.
+Qed.
+
+Example ex_nested_conclusion :
+  point_meta ex_grid 1 1 5120 3000 2 = (2, 1, 2) /\
+  In (2, 1, 2) (procs (geo_walk ex_grid 1 1 (cov_bboxes [ex_cov]) 0 [0; 1; 2] ex_cov None)).
+Proof. vm_compute. split; [reflexivity|]. tauto. Qed.
